@@ -368,6 +368,34 @@ func init() {
 		Gen:  func(t *rapid.T) *Case { return GenCase(t, p29) },
 		Rule: "data spread over memtables, L0, deeper levels and value log (pre-fill + real compactors); clients run DropPrefix (1-2 prefixes: a key or its 1-2 byte prefix) and DropAll concurrently with writers; oracles: right after a drop returns no key under the prefixes is visible unless written after the drop, commits concurrent with a drop either fail with the blocked-writes error or are applied wholly (model = everything committed before the drop returned is gone for the prefixes), other keys keep equalling the model, writes are accepted afterwards, and the final close/re-open shows the same. non-trivial = run in which >=1 drop completed",
 	})
+	// C37 in-memory parity
+	p37 := profT("T-C37")
+	p37.BigValues = false
+	p37.WBatch = 3
+	p37.MaxOps = 24
+	p37k := profT("K-C37")
+	p37k.BigValues = false
+	p37k.Compaction = true
+	p37k.WBatch = 3
+	p37k.WDrop = 2
+	p37k.MaxOps = 24
+	register(&Scenario{Prop: "C37", Family: "T", Level: "exploration", Profile: p37, NonTrivialProbe: "differential_results_compared",
+		Gen: func(t *rapid.T) *Case {
+			var c *Case
+			if rapid.Bool().Draw(t, "with_compaction") {
+				c = GenCase(t, p37k)
+			} else {
+				c = GenCase(t, p37)
+			}
+			c.Cfg.EncKeyLen = 0
+			// values must stay within the in-memory limit (= the value threshold)
+			c.Cfg.ValueThreshold = c.Cfg.MemTableSize * 15 / 100
+			c.Cfg.VLogPercentile = 0
+			return c
+		},
+		Run:  func(t *testing.T, c *Case, keep bool) Outcome { return ExecuteInMemory(t, c, p37, keep) },
+		Rule: "(a) the generated history (transactions, write batches, and in half of the cases real compactors and drops) runs on a database opened with InMemory under the same model oracles as on disk, with the persistence-event tracker installed: any mmap/fd/dir event or any file in the working directory is a violation; (b) the first client's script is run sequentially on an on-disk and on an InMemory database and every Get/iterator/commit/batch result line must be identical. non-trivial = run in which >=1 differential result was compared",
+	})
 	// C04 own writes
 	p4 := profT("T-C04")
 	p4.WIter = 5
